@@ -41,6 +41,8 @@ def run_shard(ctx):
     fs = env.localfs()
     memfs = MemoryFileSystem()
 
+    seen_tokens = {}
+
     def mutate(rng, path, data, kind):
         """-> new bytes or None (deleted)"""
         before = stat_token(path) if os.path.exists(path) else None
@@ -99,6 +101,19 @@ def run_shard(ctx):
             raise ValueError(kind)
         if before is not None and new != data and gen.ensure_token_changed(path, before):
             res.count("forced_mtime_bumps")
+        # ABA: a freed inode number can be handed out again; together with a preserved mtime and size the file would
+        # then carry a token it already carried with other bytes - such a mutation does not change (inode, mtime, size)
+        # with respect to that earlier state and is outside the quantifier: nudge mtime until the token is new
+        seen = seen_tokens.setdefault(path, set())
+        if before is not None:
+            seen.add(before)
+        tok = stat_token(path)
+        while tok in seen and new != data:
+            st = os.stat(path)
+            os.utime(path, ns=(st.st_atime_ns, st.st_mtime_ns + 1000))
+            tok = stat_token(path)
+            res.count("forced_mtime_bumps_inode_reuse")
+        seen.add(tok)
         return new
 
     for case, rng in ctx.cases(ctx.plan["n"]):
@@ -135,6 +150,7 @@ def run_shard(ctx):
                         f.write(data)
                 cur[p] = data
             hist = []
+            seen_tokens.clear()
             last_q = {}  # path -> mutation count at last query
             mcount = {p: 0 for p in cur}
 
